@@ -928,8 +928,10 @@ class BaseModel(ModelInterface):
                 empty_df_like_ests = pd.DataFrame(
                     [], index=ix, columns=estimations.columns
                 )
+                # a (ID, TIME) pair requested several times was computed several times (identical rows):
+                # keep one of them, otherwise the join would multiply the requested rows
                 estimations = empty_df_like_ests[[]].join(
-                    estimations, on=["ID", "TIME"]
+                    estimations[~estimations.index.duplicated()], on=["ID", "TIME"]
                 )
 
         return estimations
